@@ -34,7 +34,7 @@ pub struct UrdfSpec {
 #[derive(Clone, Debug, Serialize, Deserialize)]
 pub enum Case {
     Valid { u: UrdfSpec, q: [f64; 6] },
-    /// 0: a joint missing; 1: conflicting duplicate; 2: truncated document; 3: non-numeric origin
+    /// 0: a joint missing; 1: conflicting duplicate (origin); 2: truncated document; 3: non-numeric origin; 4: duplicate with the axis reversed; 5: duplicate with other limits
     Invalid { u: UrdfSpec, kind: u8, which: u8 },
     Mutated { u: UrdfSpec, edits: Vec<(u16, u8, u8)> },
     Bytes { data: Vec<u8> },
@@ -258,7 +258,7 @@ impl Property for C20 {
     fn rule(&self) -> String {
         "documents rendered from OPW values (mm grid, arbitrary reals, zeros for a1/a2/b) in the supported layouts (c2 along z or x, b as y on joint 3, c3 on joint 5 or with a2 on joint 4 as x or y, c4 along x or z) x axis signs (axis omitted for +1) \
          x limit syntax (radians, ${radians(deg)} integer/decimal, none) x all joint declaration orders x nesting depth 0..3 (xacro:macro / group / xacro:if) x naming decorations (${prefix}, alphabetic prefix+_, upper case, joint_aN, trailing punctuation) \
-         x unrelated fixed joints / links with visual origins / a second identical copy x explicit joint-name lists with arbitrary names; negative space: a missing joint, a conflicting duplicate, truncated XML, non-numeric origin; byte/token-level mutants and arbitrary bytes (plus the libFuzzer target urdf_bytes in the thorough tier). \
+         x unrelated fixed joints / links with visual origins / a second identical copy x explicit joint-name lists with arbitrary names; negative space: a missing joint, a conflicting duplicate (differing in origin, in axis direction only or in limits only), truncated XML, non-numeric origin; byte/token-level mutants and arbitrary bytes (plus the libFuzzer target urdf_bytes in the thorough tier). \
          Non-trivial: a valid document with a permuted order, a non-default layout or a decoration; every negative / mutated document."
             .into()
     }
@@ -275,7 +275,7 @@ impl Property for C20 {
     fn strategy(&self, _tier: Tier) -> BoxedStrategy<Case> {
         prop_oneof![
             5 => (spec_strategy(), crate::gen::joints_uniform()).prop_map(|(u, q)| Case::Valid { u, q }),
-            2 => (spec_strategy(), 0u8..4, 0u8..6).prop_map(|(u, kind, which)| Case::Invalid { u, kind, which }),
+            2 => (spec_strategy(), 0u8..6, 0u8..6).prop_map(|(u, kind, which)| Case::Invalid { u, kind, which }),
             4 => (spec_strategy(), prop::collection::vec((any::<u16>(), 0u8..6, any::<u8>()), 1..6)).prop_map(|(u, edits)| Case::Mutated { u, edits }),
             1 => prop::collection::vec(any::<u8>(), 0..300).prop_map(|data| Case::Bytes { data }),
         ]
@@ -354,7 +354,7 @@ impl Property for C20 {
                 let w = (*which % 6) as usize;
                 let name = joint_name(u.naming, w + 1, u.explicit_names);
                 let marker = format!("<joint name=\"{}\"", name);
-                let xml = match kind % 4 {
+                let xml = match kind % 6 {
                     0 => {
                         // remove every copy of one joint
                         let mut x = r.xml.clone();
@@ -368,6 +368,22 @@ impl Property for C20 {
                         // conflicting duplicate: same name, different origin
                         let dup = format!("<joint name=\"{}\" type=\"revolute\">\n  <origin xyz=\"9.5 0 0\" rpy=\"0 0 0\"/>\n  <axis xyz=\"0 0 1\"/>\n</joint>\n", name);
                         r.xml.replace("</robot>", &format!("{}</robot>", dup))
+                    }
+                    4 | 5 => {
+                        // conflicting duplicate that differs from the original joint in one respect only: the axis direction (4) or the limits (5)
+                        let mut u2 = u.clone();
+                        if kind % 6 == 4 {
+                            u2.signs[w] = -u2.signs[w];
+                        } else {
+                            u2.limits[w] = match u2.limits[w] {
+                                None => Some((-1.0, 1.0, 0)),
+                                Some((lo, hi, st)) => Some((lo, hi + 0.5, st)),
+                            };
+                        }
+                        let x2 = render(&u2).xml;
+                        let s0 = x2.find(&marker).expect("rendered joint");
+                        let e0 = x2[s0..].find("</joint>\n").map(|k| s0 + k + 9).unwrap();
+                        r.xml.replace("</robot>", &format!("{}</robot>", &x2[s0..e0]))
                     }
                     2 => {
                         let cut = r.xml.len() * (1 + w) / 8;
@@ -387,8 +403,8 @@ impl Property for C20 {
                     }
                 };
                 let got = call(&xml, &r.names).map_err(|m| viol!("missing joints, conflicting duplicates or malformed XML yield an error value rather than a panic", "panic: {}\n{}", m, xml))?;
-                ensure!(got.is_err(), "missing joints, conflicting duplicates or malformed XML yield an error value", "kind {} on joint {}: from_urdf returned Ok({:?})\n{}", kind % 4, w + 1, got, xml);
-                ctx.class(["invalid:missing-joint", "invalid:conflicting-duplicate", "invalid:truncated", "invalid:non-numeric-origin"][(kind % 4) as usize]);
+                ensure!(got.is_err(), "missing joints, conflicting duplicates or malformed XML yield an error value", "kind {} on joint {}: from_urdf returned Ok({:?})\n{}", kind % 6, w + 1, got, xml);
+                ctx.class(["invalid:missing-joint", "invalid:conflicting-duplicate (origin)", "invalid:truncated", "invalid:non-numeric-origin", "invalid:conflicting-duplicate (axis direction only)", "invalid:conflicting-duplicate (limits only)"][(kind % 6) as usize]);
                 ctx.nontrivial();
                 Ok(())
             }
